@@ -10,14 +10,14 @@ VERIF = os.path.dirname(os.path.dirname(os.path.abspath(__file__)))
 TB = ("Trusted base: Lean 4.33.0 kernel; axioms propext, Quot.sound, Classical.choice only (audited per theorem by the check, "
       "no sorry/native_decide/bv_decide/own axioms); the hand-written Lean model (lean/DigModel) is tied to /repo only by the "
       "correspondence check (differential execution of model driver and real library on generated programs + corpus), whose reach is "
-      "bounded by the generator (tools/gen.py); reflect, fmt, strconv.ParseBool, code-pointer identity, math/rand shuffling and the Go "
+      "bounded by the generator (tools/gen.py) in two execution modes (reflect-built values; generated Go source for C01 C13 C14 C18 C19 C20); reflect, fmt, strconv.ParseBool, code-pointer identity, math/rand shuffling and the Go "
       "runtime are modelled, not verified; harness (harness/, tools/) trusted as test machinery.")
 
 # id -> (theorem-backed part, correspondence/search-backed part)
 TEXT = {
     "C01": ("resolution rule of paramSingle.Build proved for every state and outcome: C01_decorator_wins (nearest decorator not on the stack is called, its stored output is delivered, never a provider's value), C01_decorated_cache, C01_cached_value and C01_provided (nearest scope with a cached value or providers, located by findProviders_value/_provs; zero only for optional), C01_nothing; cache justification (cached values are outputs of registered providers) is still correspondence-only",
-            "wiring of every argument of every executed function compared with the model on every explored program (projection: verdict class + enter events with provenance tokens)"),
-    "C02": ("flag discipline of the whole resolver proved by induction over its mutual recursion (engine_flags): C02_once (per resolver call: at most one successful execution per constructor and per decorator, none for nodes already built or on the stack, and a successful one marks the node built), C02_built_stays_built, C02_cached, C02_noreentry, C02_deco_cached; the lift to whole histories (invariant of the API step) is the next proof step",
+            "wiring of every argument of every executed function compared with the model on every explored program (projection: verdict class + enter events with provenance tokens), in reflect mode and in generated-source mode (declared Go functions and struct types compiled into the executor)"),
+    "C02": ("flag discipline of the whole resolver proved by induction over its mutual recursion (engine_flags): C02_once (per resolver call: at most one successful execution per constructor and per decorator, none for nodes already built or on the stack, and a successful one marks the node built), C02_once_history (whole programs: in the history of any operation sequence every constructor node has at most one successful exit — step invariant HInv, C02_step_invariant), C02_built_stays_built, C02_cached, C02_noreentry, C02_deco_cached",
             "enter/exit skeleton compared with the model; trace predicate: successful exits per function <= accepted registrations, no nested entry"),
     "C03": ("C03_passive (Scope/Provide/Decorate/Visualize/String report no event, any state) and C03_invoke_registry (the resolver never changes the registry) are proved for the model",
             "execution order and closure (only the needed functions run, dependencies complete first) compared with the model on every explored program; trace predicate pred_c03"),
@@ -41,9 +41,9 @@ TEXT = {
     "C16": ("verification-timing half proved: C16_defer_never_rejects, C16_eager_step, C16_eager_failure_names_a_check, C16_invoke_checks (an unverified scope is checked by Invoke before anything is built; a cycle rejects without executing anything), C16_flags_only; the permutation half is decided by metamorphic twins on the real library", "metamorphic twins on the real library: permuted registration blocks, scope creation moved earlier, DeferAcyclicVerification on/off against the eager run"),
     "C17": ("C17_silent / C17_silent_history proved at full strength (no enter/exit event in any history of a DryRun container)",
             "verdict equality dry vs normal with all-ok functions: metamorphic twin on the real library; traces compared with the model (50% dry programs)"),
-    "C18": ("C18_single_entry, C18_group_entry, C18_object_flat (declaration order), C18_as_expanded, C18_group_result, C18_error_omitted, C18_error_slot, C18_variadic_omitted, C18_rejected_untouched_decorate, C18_info_is_parse_decorate are proved", "Info structs of every Provide/Decorate/Invoke compared with the model (IDs excluded in reflect mode)"),
+    "C18": ("C18_single_entry, C18_group_entry, C18_object_flat (declaration order), C18_as_expanded, C18_group_result, C18_error_omitted, C18_error_slot, C18_variadic_omitted, C18_rejected_untouched_decorate, C18_info_is_parse_decorate are proved", "Info structs of every Provide/Decorate/Invoke compared with the model (IDs coincide in reflect mode; generated-source mode compares distinct IDs up to an injective renaming)"),
     "C19": ("C19_can, C19_no_error_is_createGraph, C19_uninformative_error, C19_addCtor_appends (one entry per AddCtor, earlier entries kept), C19_first_failure_is_root are proved for the Dot model (createGraph/AddCtor, updateGraph, PruneSuccess in lean/DigModel/Dot.lean)",
-            "K-dot: the DOT text of every Visualize (with and without VisualizeError) is parsed by a real DOT-subset parser in the harness (syntax validity, label consistency) and its structure (clusters, result nodes, parameter edges with dashed/solid, group nodes and members, failure colouring, pruning) is compared with the model; in reflect mode all constructor IDs coincide (modelled as such), distinct IDs need the generated-source mode"),
+            "K-dot: the DOT text of every Visualize (with and without VisualizeError) is parsed by a real DOT-subset parser in the harness (syntax validity, label consistency) and its structure (clusters, result nodes, parameter edges with dashed/solid, group nodes and members, failure colouring, pruning) is compared with the model; in reflect mode all constructor IDs coincide (modelled as such); the generated-source mode (batches of programs rendered as Go source and compiled into the executor) runs the same comparison with distinct constructor IDs, which is what exercises pruning"),
     "C20": ("C20_ctor, C20_deco (exact event sequence of one execution incl. callback error and runtime), C20_error_root, C20_cached, C20_onstack, C20_deco_cached, C20_passive proved",
             "K-callback: callback events (position, error class, runtime under the mock clock) compared with the model; trace predicate pred_c20 judges the implementation's own trace"),
 }
@@ -90,7 +90,7 @@ def main():
                      "serves_properties": [p["id"] for p in props],
                      "kind_free_text": "Lean 4 model of dig with theorems (lean/DigModel), model driver exe, Go executor on the real library, Python generator/differ/shrinker"}],
         "checks": checks,
-        "notes": "All 13 defects found so far were repaired by fix: commits in /repo (KNOWN_FINDINGS.txt lists them as fixed; none is open). See DESIGN.md.",
+        "notes": "All 14 defects found so far were repaired by fix: commits in /repo (KNOWN_FINDINGS.txt lists them as fixed; none is open). See DESIGN.md.",
         "not_applicable": [],
     }
     json.dump(m, open(os.path.join(VERIF, "MANIFEST.json"), "w"), indent=1)
